@@ -75,11 +75,36 @@ class _PNonce(str):
         return str.__hash__(self)
 
 
+# Concretisations of the abstract clock: real time = offset + unit * tick, ttl_seconds = unit * ttl.  All values are
+# exactly representable in binary floating point, so the boundary "expires_at <= now" is exact on correct code.
+# (integers / half seconds with a fractional origin / eighths far from zero / 30 s ticks / half seconds at 2**40)
+SCALES = [(1.0, 0.0), (0.5, 0.75), (0.125, 1000.875), (30.0, 1000.5), (0.5, float(2 ** 40) + 0.75)]
+_B64 = "ABCDEFGHIJKLMNOPQRSTUVWXYZabcdefghijklmnopqrstuvwxyz0123456789-_"
+
+
+def nonce_names(seed: int) -> dict:
+    """abstract nonce -> a realistic proof nonce (22 base64url characters), fixed by the seed"""
+    import random
+
+    r = random.Random(seed)
+    out = {}
+    while len(out) < 4:
+        v = "".join(r.choice(_B64) for _ in range(22))
+        if v not in out.values():
+            out["abcd"[len(out)]] = v
+    return out
+
+
 class World:
     """One real NonceCache + scheduler + logical threads presenting nonces."""
 
-    def __init__(self, cap: int, ttl: int, threads: list[str], probe: bool = False) -> None:
+    def __init__(self, cap: int, ttl: int, threads: list[str], probe: bool = False, scale=(1.0, 0.0),
+                 seed: int | None = None) -> None:
         import vgi_rpc.http._replay as rp
+
+        self.unit, self.offset = scale
+        self.names = nonce_names(seed) if seed is not None else {c: c for c in "abcd"}
+        self.rnames = {v: k for k, v in self.names.items()}
 
         self.sched = Scheduler(step_timeout=20.0)
         self.events: list[dict] = []
@@ -94,7 +119,7 @@ class World:
         if orig is not None:
             rp.threading = self.sched.threading_shim()
         try:
-            self.cache = rp.NonceCache(ttl_seconds=ttl, capacity=cap, clock=self._clock)
+            self.cache = rp.NonceCache(ttl_seconds=self.unit * ttl, capacity=cap, clock=self._clock)
         finally:
             if orig is not None:
                 rp.threading = orig
@@ -116,14 +141,18 @@ class World:
         if me in self.cur and not self.read_done[me]:
             self.read_done[me] = True
             self.ev(e="Read", t=me, n=self.cur[me], now=int(self.sched.clock))
-        return self.sched.clock
+        return self.offset + self.unit * self.sched.clock
+
+    def key(self, x: str) -> str:
+        """a FRESH string object for every presentation (equal value, different identity)"""
+        return "".join(list(self.names[x]))
 
     def _body(self, t: str) -> None:
         while self.prog[t]:
             x = self.prog[t].pop(0)
             self.cur[t] = x
             self.read_done[t] = False
-            key = _PNonce(x) if self.probe else x
+            key = _PNonce(self.key(x)) if self.probe else self.key(x)
             r = self.cache.check_and_add(key)
             if not self.read_done[t]:
                 # the implementation did not read the injected clock during this call
@@ -163,7 +192,13 @@ class World:
 
     def entries(self):
         d = getattr(self.cache, "_entries", None)
-        return None if d is None else [(str(k), int(v)) for k, v in d.items()]
+        if d is None:
+            return None
+        out = []
+        for k, v in d.items():
+            tick = (v - self.offset) / self.unit            # back to model ticks (integral on correct code)
+            out.append((self.rnames.get(str(k), str(k)), int(tick) if tick == int(tick) else round(tick, 6)))
+        return out
 
     def finish(self) -> bool:
         """Let every thread run to completion (programs are not extended any more)."""
@@ -194,9 +229,9 @@ class World:
 
 
 # ---------------------------------------------------------------------------------------------- Level A
-def replay_path(cap: int, ttl: int, threads: list[str], beh: list[dict]):
-    """Force one TLC path onto the real object.  Returns (trace, drift | None, nsteps)."""
-    w = World(cap, ttl, threads)
+def replay_path(cap: int, ttl: int, threads: list[str], beh: list[dict], scale=(1.0, 0.0), seed=None):
+    """Force one TLC path onto the real object.  Returns (trace, drift | None, executed)."""
+    w = World(cap, ttl, threads, scale=scale, seed=seed)
     drift = None
     n = 0
     try:
@@ -283,7 +318,8 @@ def _edge_key():
 def run_real_schedule(scn: dict, prefix: list[str]):
     """Execute scenario `scn` once on the real object following the option names in prefix, default afterwards."""
     threads = sorted(scn["progs"])
-    w = World(scn["cap"], scn["ttl"], threads, probe=True)
+    w = World(scn["cap"], scn["ttl"], threads, probe=True, scale=tuple(scn.get("scale", (1.0, 0.0))),
+              seed=scn.get("seed"))
     decisions = []
     stuck = None
     try:
@@ -292,7 +328,7 @@ def run_real_schedule(scn: dict, prefix: list[str]):
                 w.tick()
             w.cur["t0"] = x
             w.read_done["t0"] = False
-            r0 = w.cache.check_and_add(_PNonce(x))
+            r0 = w.cache.check_and_add(_PNonce(w.key(x)))
             w.ev(e="Done", t="t0", n=x, res=bool(r0), size=len(w.cache))
             w.cur.pop("t0", None)
         for t in threads:
@@ -339,10 +375,11 @@ JUDGE_CONSTS = {"Threads": _strset(["t0", "t1", "t2", "t3"]), "Nonces": _strset(
                 "Ttls": {1, 2, 3}, "Modes": _strset(["lock"]), "MaxClock": 99, "MaxOps": 99, "Canon": False}
 
 
-def replay_schedule(cap: int, ttl: int, nthreads: int, executed: list[str], trace_ev: list[dict]) -> list[dict]:
+def replay_schedule(cap: int, ttl: int, nthreads: int, executed: list[str], trace_ev: list[dict],
+                    scale=(1.0, 0.0), seed=None) -> list[dict]:
     """Re-execute a Level-A run from what was really executed ("Tick" | thread) and the nonces it presented."""
     threads = [f"t{i + 1}" for i in range(nthreads)]
-    w = World(cap, ttl, threads)
+    w = World(cap, ttl, threads, scale=scale, seed=seed)
     try:
         for e in trace_ev:
             if e["e"] == "Read" and e["t"] in w.prog:
@@ -365,10 +402,12 @@ def _replay(ctx: Ctx, rec: dict, wd) -> None:
     if sig.get("level") == "B" and d.get("scenario"):
         scn = dict(d["scenario"], pb=None)
         scn["prefill"] = [tuple(x) for x in scn["prefill"]]
+        scn["scale"], scn["seed"] = tuple(d.get("scale", (1.0, 0.0))), d.get("nonce_seed")
         out, _ = run_real_schedule(scn, d["schedule"])
         ev = out["trace"]
     else:
-        ev = replay_schedule(tr["cap"], tr["ttl"], sig["threads"], d["executed"], tr["ev"])
+        ev = replay_schedule(tr["cap"], tr["ttl"], sig["threads"], d["executed"], tr["ev"],
+                             tuple(d.get("scale", (1.0, 0.0))), d.get("nonce_seed"))
     ctx.case(("replay", _tkey(ev)), sample={"replayed_trace": ev})
     verdicts, bad, inv_hits = judge_traces(ctx, wd, "NonceCacheTrace", [{"cap": tr["cap"], "ttl": tr["ttl"], "ev": ev}],
                                            JUDGE_CONSTS, invariants=[f"Inv_{c}" for c in CLAUSES], name="replay")
@@ -376,7 +415,8 @@ def _replay(ctx: Ctx, rec: dict, wd) -> None:
     for clause in bad.get(0, []):
         ctx.violation(clause, dict(sig, clause=clause), {"trace": {"cap": tr["cap"], "ttl": tr["ttl"], "ev": ev},
                                                          "schedule": d["schedule"], "executed": d.get("executed"),
-                                                         "scenario": d.get("scenario")})
+                                                         "scenario": d.get("scenario"), "scale": d.get("scale"),
+                                                         "nonce_seed": d.get("nonce_seed")})
 
 
 def run(ctx: Ctx) -> None:
@@ -393,6 +433,9 @@ def run(ctx: Ctx) -> None:
                "'distinct nonces arrived in the window' = distinct nonces other than x with a presentation "
                "overlapping the interval from x's acceptance to the replay's return",
                "a presentation is inside the window when it returns while the global clock < accNow + ttl",
+               "one model tick is concretised as 1 s, 0.5 s, 0.125 s or 30 s with integral and fractional, small and "
+               "large (2**40) clock origins (all exactly representable); abstract nonces a..d are concretised as "
+               "22-character base64url strings, a fresh string object per presentation",
                "bounds: 2-3 threads, <=2 presentations per thread, alphabet 3, capacity 1..4, <=3 ticks; sequential "
                "family: 1 thread, <=7-8 presentations, alphabet 4 (up to renaming), capacity up to 4, clock crossing the ttl")
     T = {}
@@ -414,13 +457,13 @@ def run(ctx: Ctx) -> None:
         n_random = 60
     else:
         mcs.append(("mc-2thr-2ops-caps1-4-ttl1-3", _consts(2, 3, (1, 2, 3, 4), (1, 2, 3), 3, 2, sym=True), False))
-        mcs.append(("mc-3thr-2ops-caps1-3", _consts(3, 3, (1, 2, 3), (2,), 3, 2, sym=True), False))
+        mcs.append(("mc-3thr-2ops-caps1-2", _consts(3, 3, (1, 2), (2,), 3, 2, sym=True), False))
         mcs.append(("mc-fine+nolock-2thr", _consts(2, 3, (1, 2), (2,), 3, 2, modes=("fine", "nolock"), sym=True), True))
         mcs.append(("mc-fine-3thr", _consts(3, 2, (1, 2), (2,), 2, 1, modes=("fine",), sym=True), False))
         mcs.append(("mc-sequential-8ops-4nonces", _consts(1, 4, (1, 2, 3, 4), (1, 2), 3, 8, sym=True), False))
         dumps = [(2, 2, (1, 2), (2,), 2, 1, "all"), (3, 1, (1,), (1,), 1, 1, "all"), (3, 1, (1,), (2,), 2, 1, "all"),
                  (2, 1, (1,), (1,), 2, 2, "all"),
-                 (1, 4, (3,), (1,), 2, 6, "all", "seq"), (1, 4, (3, 4), (1,), 1, 7, "all", "seq"),
+                 (1, 4, (3,), (1,), 2, 6, "all", "seq"), (1, 4, (3, 4), (1,), 1, 7, "cover", "seq"),
                  (1, 4, (2, 3, 4), (1, 2), 3, 7, "cover", "seq"),
                  (2, 2, (1, 2, 3), (1, 2), 2, 2, "cover"), (3, 2, (1, 2), (2,), 2, 1, "cover"),
                  (2, 3, (1, 2, 3, 4), (2,), 2, 2, "random")]
@@ -460,6 +503,7 @@ def run(ctx: Ctx) -> None:
     metas: list[dict] = []
     complete_all = True
     path_stats = []
+    npath = 0
     for d, (r, g) in zip(dumps, graphs):
         nt, nn, caps, ttls, mc_, mo, mode = d[:7]
         for u in g.out:                      # TLC dumps an edge once per sub-action that generates it
@@ -484,14 +528,16 @@ def run(ctx: Ctx) -> None:
             s0 = g.state(nodes[0])
             cap, ttl = s0["cap"], s0["ttl"]
             beh = g.path_to_behaviour(nodes, labs)
-            ev, drift, executed = replay_path(cap, ttl, threads, beh)
+            scale, nseed = SCALES[npath % len(SCALES)], ctx.seed * 1000 + npath % 7
+            npath += 1
+            ev, drift, executed = replay_path(cap, ttl, threads, beh, scale, nseed)
             ctx.case(("A", cap, ttl, _tkey(ev)))
             if drift is not None:
                 nd += 1
                 ctx.drift.append({"level": "A", "config": [nt, nn, cap, ttl, mc_, mo], "schedule": labs, **drift})
             traces.append({"cap": cap, "ttl": ttl, "ev": ev})
             metas.append({"level": "A", "threads": nt, "schedule": labs, "executed": executed,
-                          "py_drift": drift is not None})
+                          "py_drift": drift is not None, "scale": list(scale), "nonce_seed": nseed})
             if drift is not None and "schedule control unavailable" in str(drift.get("what", "")):
                 break                           # every further path would only repeat this
         path_stats.append({"threads": nt, "nonces": nn, "caps": list(caps), "ttls": list(ttls), "maxclock": mc_,
@@ -542,7 +588,8 @@ def run(ctx: Ctx) -> None:
                           "exploration skipped"})
         scns = []
         b_complete = False
-    for scn in scns:
+    for k, scn in enumerate(scns):
+        scn["scale"], scn["seed"] = SCALES[k % len(SCALES)], ctx.seed * 1000 + k % 7
         outs, comp, nexec = explore(lambda p, scn=scn: run_real_schedule(scn, p),
                                     limit=300 if quick else 1000, preemption_bound=scn["pb"])
         b_complete = b_complete and comp
@@ -558,7 +605,8 @@ def run(ctx: Ctx) -> None:
                                   "shimmed": o["shimmed"]})
             traces.append({"cap": scn["cap"], "ttl": scn["ttl"], "ev": o["trace"]})
             metas.append({"level": "B", "threads": len(thr), "scenario": _scn_json(scn), "schedule": o["schedule"],
-                          "executed": o["schedule"], "py_drift": anomaly})
+                          "executed": o["schedule"], "py_drift": anomaly, "scale": list(scn["scale"]),
+                          "nonce_seed": scn["seed"]})
         b_stats.append({"scenario": _scn_json(scn), "real_schedules": nexec, "exhausted": comp, "anomalies": nstuck})
         if outs and len(ctx.samples) < 4:
             ctx.sample({"level": "B", "scenario": _scn_json(scn), "schedule": outs[-1]["schedule"],
@@ -600,6 +648,7 @@ def run(ctx: Ctx) -> None:
             ctx.violation(clause, {"clause": clause, "level": meta["level"], "cap": tr["cap"], "ttl": tr["ttl"],
                                    "threads": meta["threads"]},
                           {"trace": tr, "schedule": meta["schedule"], "executed": meta["executed"],
+                           "scale": meta["scale"], "nonce_seed": meta["nonce_seed"],
                            "scenario": meta.get("scenario"), "conforms_to_model": verdicts[j] is None})
     T["tlc_judge"] = round(time.time() - t3, 1)
     ctx.extra["distinct_traces_judged"] = len(rep)
@@ -617,4 +666,4 @@ def _tkey(trace: list[dict]) -> str:
 
 def _scn_json(scn: dict) -> dict:
     return {"cap": scn["cap"], "ttl": scn["ttl"], "progs": scn["progs"], "prefill": scn["prefill"],
-            "ticks": scn["ticks"], "preemption_bound": scn["pb"]}
+            "ticks": scn["ticks"], "preemption_bound": scn["pb"], "pb": scn["pb"]}
